@@ -231,6 +231,15 @@ func runC07(c *Ctx) {
 		}
 		b58dec(c, s)
 	}
+	// valid multi-byte UTF-8 characters (their code point modulo 256 may be an alphabet character)
+	for k := 0; k < c.Pick(120, 1200); k++ {
+		s := randStr(c, b58alpha, 1+r.Intn(50))
+		p := r.Intn(len(s))
+		mb := []string{"\xc5\x81", "\xc3\xa9", "\xce\x91", "\xe2\x82\xac", "\xc4\xb1", "\xf0\x9f\x98\x80"}[k%6]
+		b58dec(c, s[:p]+mb+s[p:])
+		b58dec(c, mb+s)
+		chkdec(c, s[:p]+mb+s[p:])
+	}
 	// --- Base58Check: every version, payload lengths 0..40, decode of valid /
 	// corrupted / short strings
 	for k := 0; k < c.Pick(400, 4000); k++ {
